@@ -1051,7 +1051,8 @@ void WrXErrorPos(
     char const*   pErrorMsg;
     tExpectError* pExpectError;
 
-    pExpectError = FindAndTakeExpectError(Num);
+    /* a fatal error ends the run (callers rely on it): it cannot be swallowed by EXPECT */
+    pExpectError = (Num < 10000) ? FindAndTakeExpectError(Num) : NULL;
     if (pExpectError) {
 #ifdef ASL_VERIF
         if (AV_ON(AV_DIAG)) {
